@@ -675,7 +675,13 @@ func writeFieldReadByter(name string, typ FieldType, w *iohelp.ErrorWriter, sett
 			ln = getLineWithTabs(settings.typeByteReaders[typ.Map.Key], depth+1, depthName("k", depth), typ.goString(settings))
 		}
 		w.SafeWrite([]byte(strings.Replace(ln, "=", ":=", 1)))
-		writeFieldReadByter("("+name+")["+depthName("k", depth)+"]", typ.Map.Value, w, settings, depth+1, safe)
+		// the value is decoded into a local and stored once: reading it back through
+		// the map (to fill a nested container, or for its length) does not find it
+		// when the key is a NaN
+		vName := depthName("mv", depth)
+		writeLineWithTabs(w, "var "+vName+" %TYPE", depth+1, name, typ.Map.Value.goString(settings))
+		writeFieldReadByter(vName, typ.Map.Value, w, settings, depth+1, safe)
+		writeLineWithTabs(w, "(%ASGN)["+depthName("k", depth)+"] = "+vName, depth+1, name)
 		writeLineWithTabs(w, "}", depth)
 	} else {
 		simpleTyp := typ.Simple
